@@ -21,8 +21,9 @@ FAMILY = Family(
     callops={'SegmentData': FuncInfo('SegmentData_call', 'size_t'), 'Segment': FuncInfo('Segment_call', 'size_t')},
     conv={'Segment': 'key'},
     funcs={'PGM_SUB_EPS': FuncInfo('PGM_SUB_EPS', 'size_t'), 'PGM_ADD_EPS': FuncInfo('PGM_ADD_EPS', 'size_t'), 'BIT_WIDTH': FuncInfo('BIT_WIDTH', 'int'),
-           'CEIL_INT_DIV': FuncInfo('CEIL_INT_DIV', 'K')},
-    struct_methods={('IntVector', 'operator[]'): FuncInfo('IntVector_get', 'uint64_t')},
+           'CEIL_INT_DIV': FuncInfo('CEIL_INT_DIV', 'K'), 'sdsl::int_vector': FuncInfo('IntVector_make', 'IntVector'),
+           '__builtin_mul_overflow': FuncInfo('__builtin_mul_overflow', 'bool', template='__builtin_mul_overflow(%a0, %a1, %p2)')},
+    struct_methods={('IntVector', 'operator[]'): FuncInfo('IntVector_get', 'uint64_t'), ('IntVector', 'operator[]='): FuncInfo('IntVector_set', 'void')},
     typenames={'K', 'Floating', 'Segment', 'SegmentData', 'ApproxPos'},
 )
 FUNCS = {}
@@ -47,6 +48,10 @@ F('Bucketing_search', HPP, 'search', 'ApproxPos Bucketing_search(const Bucketing
   params={'key': 'K'}, must_fire=('builtin_expect', 'call_operator', 'return_brace'))
 F('Bucketing_segment_for_key', HPP, 'segment_for_key', 'size_t Bucketing_segment_for_key(const Bucketing *self, K key)', cls='BucketingPGMIndex', self_cls='Bucketing',
   ret='It<Segment>', ret_base='self->segments.data', params={'key': 'K'}, must_fire=('if_constexpr', 'std_upper_bound', 'std_prev'))
+F('Bucketing_build_top_level', HPP, 'build_top_level', 'void Bucketing_build_top_level(Bucketing *self)', cls='BucketingPGMIndex', self_cls='Bucketing', ret='void',
+  must_fire=('if_constexpr', 'index_assign_operator', 'throw'))
+FUNCS['IntVector_make'] = FuncDesc('IntVector_make', HPP, 'int_vector', 'IntVector IntVector_make(size_t size, uint64_t value, uint8_t width)', ret='IntVector')
+FUNCS['IntVector_set'] = FuncDesc('IntVector_set', HPP, 'operator[]', 'void IntVector_set(IntVector *v, size_t idx, uint64_t value)', ret='void')
 FUNCS['Segment_call'] = FuncDesc('Segment_call', PGM, 'operator()', 'size_t Segment_call(const Segment *self, K k)', cls='Segment', ret='size_t')
 
 PRELUDE = '''PGMV_DEF_MINMAX(K)
